@@ -63,6 +63,8 @@ pub fn fs_hard_link(from: &PathH, to: &PathH) -> (r: MigrationResult<()>)
 #[verifier::external_body]
 pub fn fs_rename(from: &PathH, to: &PathH) -> MigrationResult<()> { unimplemented!() }
 #[verifier::external_body]
+pub fn fs_rename_raw(from: &PathH, to: &PathH) -> std::result::Result<(), IoErr> { unimplemented!() }
+#[verifier::external_body]
 pub fn fs_remove_file(path: &PathH) -> std::result::Result<(), IoErr> { unimplemented!() }
 #[verifier::external_body]
 pub fn sync_parent_directory(path: &PathH) -> std::result::Result<(), IoErr> { unimplemented!() }
